@@ -83,7 +83,7 @@ def run(prop, tier, seed, scratch, t0, replay):
         print(diff[:1500], flush=True)
         print("VIOLATION property=%s replay=%s" % (prop, path), flush=True)
     wall = time.time() - t0
-    if not replay:
+    if not replay and not os.environ.get("VERIF_NO_EVIDENCE"):
         evidence = {
             "property_id": prop, "tier": tier, "seed": seed, "level": "translation_validation",
             "coverage": {
